@@ -543,7 +543,7 @@ def conformance(seed, tier, k):
 
     def one(t):
         i, case, files, s1, sn = t
-        inputs = set(gen.input_paths(case))
+        inputs = set(gen.input_paths(case)) | set(case.get("aux_files") or ())
         r1 = realrun.run_real(gen.build_argv(case, cores=1), files, src, timeout=60)
         rn = realrun.run_real(gen.build_argv(case, cores=case["knobs"]["workers"]), files, src, timeout=60)
         d1 = realrun.compare(s1, r1, inputs)
